@@ -18,6 +18,7 @@ CONSTANTS
   SubCap = 2
   RingCap = 0
   ClearInvalid = TRUE
+  EventBatch = 0
   SeqDetail = FALSE
   TsoDetail = FALSE
   Readers = {}
